@@ -471,6 +471,9 @@ func (r *Run) finish() {
 		"wall_s":      wall,
 		"violations":  int(r.Violations()),
 	}
+	if part := os.Getenv("VERIF_EVIDENCE_PART"); part != "" && r.ReplayPath == "" {
+		ev = mergeEvidence(filepath.Join(Root, "evidence", r.Prop+".json"), part, ev)
+	}
 	data, err := json.MarshalIndent(ev, "", " ")
 	if err != nil {
 		Fatalf("evidence: %v", err)
@@ -496,6 +499,66 @@ func (r *Run) finish() {
 		os.Exit(1)
 	}
 	os.Exit(0)
+}
+
+// mergeEvidence folds this run into the evidence written by an earlier part of
+// the same check invocation (a check that consists of two programs, e.g. an
+// enumeration part and a schedule-exploration part): counts are added, the
+// part's own coverage is kept under coverage.parts[<name>].
+func mergeEvidence(path, part string, ev map[string]interface{}) map[string]interface{} {
+	data, err := os.ReadFile(path)
+	if err != nil {
+		return ev
+	}
+	var prev map[string]interface{}
+	if json.Unmarshal(data, &prev) != nil || prev["tier"] != ev["tier"] {
+		return ev
+	}
+	pc, _ := prev["coverage"].(map[string]interface{})
+	nc := ev["coverage"].(map[string]interface{})
+	if pc == nil {
+		return ev
+	}
+	num := func(v interface{}) float64 {
+		switch x := v.(type) {
+		case float64:
+			return x
+		case int64:
+			return float64(x)
+		case int:
+			return float64(x)
+		}
+		return 0
+	}
+	parts, _ := pc["parts"].(map[string]interface{})
+	if parts == nil {
+		parts = map[string]interface{}{}
+	}
+	parts[part] = nc
+	pc["parts"] = parts
+	pc["evaluations"] = int64(num(pc["evaluations"]) + num(nc["evaluations"]))
+	pc["distinct_nontrivial"] = int64(num(pc["distinct_nontrivial"]) + num(nc["distinct_nontrivial"]))
+	pe, _ := pc["exhaustive"].(bool)
+	ne, _ := nc["exhaustive"].(bool)
+	pc["exhaustive"] = pe && ne
+	if ps, ok := pc["samples"].([]interface{}); ok {
+		if ns, ok := nc["samples"].([]interface{}); ok {
+			pc["samples"] = append(ps, ns...)
+		}
+	}
+	if r, ok := nc["rule"].(string); ok {
+		pc["rule"] = fmt.Sprint(pc["rule"]) + " || part " + part + ": " + r
+	}
+	prev["coverage"] = pc
+	prev["wall_s"] = num(prev["wall_s"]) + num(ev["wall_s"])
+	prev["violations"] = int(num(prev["violations"]) + num(ev["violations"]))
+	if pa, ok := prev["assumptions"].([]interface{}); ok {
+		for _, a := range ev["assumptions"].([]string) {
+			pa = append(pa, a)
+		}
+		prev["assumptions"] = pa
+	}
+	return prev
 }
 
 // Fatalf reports a harness error (exit 2): the check could not run.
